@@ -284,6 +284,29 @@ def run_case(case, rec, mon=None):
                         mod = T.PyTorchSTFTFrameComputer.from_stft_frame_computer(comp, torch.cdouble, torch.double)
                 except Exception:
                     continue  # recorded by the factory hook
+                if case["idx"] % 4 == 2:
+                    # the module as a DataLoader worker or a checkpoint gives it back: a deep copy, a pickle round trip (torch.save /
+                    # torch.load of the whole module), or a new module loaded from the first one's state_dict
+                    import copy as _copy
+                    import io as _io
+
+                    way = ("deepcopy", "pickle", "state_dict")[(case["idx"] // 4) % 3]
+                    try:
+                        if way == "deepcopy":
+                            m2 = _copy.deepcopy(mod)
+                        elif way == "pickle":
+                            b = _io.BytesIO()
+                            torch.save(mod, b)
+                            b.seek(0)
+                            m2 = torch.load(b, weights_only=False)
+                        else:
+                            m2 = T.PyTorchSTFTFrameComputer.from_stft_frame_computer(comp) if prec == "f32" else T.PyTorchSTFTFrameComputer.from_stft_frame_computer(comp, torch.cdouble, torch.double)
+                            m2.load_state_dict(mod.state_dict())
+                        mon.origin[m2] = mon.origin.get(mod)
+                        mod = m2
+                        rec.count("stft_modules_used_through_a_%s" % way)
+                    except Exception as e:
+                        mon.v("a %s of the torch STFT module raised %r" % (way, e), check="module_copy", op="stft", fl=int(fl), fs=int(fs))
                 Ns = sorted({0, max(0, fl // 2 - 1), fl // 2, fl, fl + 1, fl + fs, 3 * fl + int(rng.integers(0, fs + 1)), int(rng.integers(fl, 6 * fl + 10))})
                 # the last length with k frames and the first with k + 1 (with sparse frames, fs > fl, the tail may hold
                 # room for a frame that is not due)
